@@ -21,7 +21,7 @@ SPEC = {
         ("order independence of the link to the next observation", 'ne_end', r'^ne-end:(one-emitting|worse|new-state|dropped|next-column|frame)'),
         ("_node_in_prev_ne(walks back over `prev` only - a set that holds one entry - so hash order cannot decide the answer)", 'visited', r'^visited:')],
     'bounded': [
-        ('map-order-permutations', suites.case_C10, 1500, 200000, RULE + '; ' + 'non-trivial = >= 3 nodes or an exact tie in some column', '')],
+        ('map-order-permutations', suites.case_C10, 1500, 200000, RULE + '; ' + 'best_last_matches(k=1,2) (what continue_with_distance jumps on from) compared as well when the last columns hold no exact tie; non-trivial = >= 3 nodes or an exact tie in some column', '')],
 }
 
 
